@@ -350,6 +350,107 @@ def mixed_strategy(draw):
             "shuffle": draw(st.sampled_from([False, True, 5]))}
 
 
+# ------------------------------------------- a large and mostly empty grid
+
+def run_large(case):
+    """Few cases on a union grid of more than 2**16 slots (given in no
+    particular order): every requested slot holds its result, the number of
+    non-placeholder slots equals the number of cases, the shape is the union
+    grid's."""
+    x = xyz()
+    nv = case["nv"]
+    cargs = ["a", "b", "c"]
+    cases = [list(c) for c in case["cases"]]
+    models.LOG.clear()
+    fn = functools.partial(models.record_fn, _xv=("int", None))
+    with under_test("combo_runner(cases=) on a large sparse grid"):
+        got = x.combo_runner(fn, None, cases=[dict(zip(cargs, c))
+                                              for c in cases], verbosity=0)
+    exp = [models.canon_kw(dict(zip(cargs, c))) for c in cases]
+    calls = models.read_log(None)
+    require(collections.Counter(calls) == collections.Counter(exp),
+            "call-log", f"{len(calls)} calls for {len(exp)} cases")
+    coords = [sorted({c[i] for c in cases}) for i in range(3)]
+    require(len(got) == len(coords[0]) and
+            all(len(p) == len(coords[1]) for p in got) and
+            all(len(r) == len(coords[2]) for p in got for r in p),
+            "grid-shape", f"union grid {[len(c) for c in coords]}")
+    for c in cases:
+        i, j, k = (coords[d].index(c[d]) for d in range(3))
+        want = models.result_of("int", dict(zip(cargs, c)))
+        require(models.deep_eq(got[i][j][k], want), "requested-cell-wrong",
+                lambda: f"at {c}: {got[i][j][k]!r}, the function returned "
+                        f"{want!r}")
+    filled = sum(1 for p in got for r in p for v in r
+                 if models.placeholder_problem(v, 0) is not None)
+    require(filled == len(cases), "unrequested-cell-not-missing",
+            f"{filled} slots hold data for {len(cases)} cases")
+    total = len(coords[0]) * len(coords[1]) * len(coords[2])
+    return {"nontrivial": total > 2 ** 16,
+            "classes": ["large-sparse-grid"]}
+
+
+@st.composite
+def large_strategy(draw):
+    nv = draw(st.sampled_from([41, 43]))
+    # a diagonal scan, then a few cases that share a prefix with an earlier
+    # one without being adjacent to it
+    cases = [[i, i, i] for i in range(nv)]
+    for _ in range(draw(st.integers(1, 5))):
+        i = draw(st.integers(0, nv - 1))
+        j = draw(st.integers(0, nv - 1))
+        k = draw(st.integers(0, nv - 1))
+        c = [i, draw(st.sampled_from([i, j])), k]
+        if c not in cases:
+            cases.append(c)
+    if draw(st.booleans()):
+        cases = draw(st.permutations(cases))
+    return {"nv": nv, "cases": [list(c) for c in cases]}
+
+
+# ------------------------------------------------ ONE case as a bare mapping
+
+def run_bare(case):
+    """``cases`` given as one bare dict (not wrapped in a list) is one case,
+    whatever its values look like - equal-length tuples included."""
+    x = xyz()
+    kw = {a: (tuple(v) if isinstance(v, list) else v)
+          for a, v in case["kw"].items()}
+    models.LOG.clear()
+    fn = functools.partial(models.record_fn, _xv=("int", None))
+    with under_test("combo_runner(cases=<one dict>)"):
+        got = x.combo_runner(fn, None, cases=dict(kw), flat=True,
+                             verbosity=0)
+    calls = models.read_log(None)
+    require(calls == [models.canon_kw(kw)], "call-log",
+            f"one case {kw!r} requested; the function was called with "
+            f"{calls!r:.300}")
+    want = models.result_of("int", kw)
+    flat_ = got
+    while isinstance(flat_, (tuple, list)) and len(flat_) == 1:
+        flat_ = flat_[0]
+    require(models.deep_eq(flat_, want), "requested-cell-wrong",
+            f"{got!r:.200} vs {want!r}")
+    return {"nontrivial": any(isinstance(v, tuple) for v in kw.values()),
+            "classes": ["bare-dict-case"]}
+
+
+@st.composite
+def bare_strategy(draw):
+    n = draw(st.integers(1, 3))
+    names = draw(st.lists(st.sampled_from(gens.ARG_NAMES), min_size=n,
+                          max_size=n, unique=True))
+    ln = draw(st.integers(2, 3))
+    kw = {}
+    for a in names:
+        if draw(st.booleans()):
+            kw[a] = draw(st.lists(st.integers(0, 9) | st.sampled_from(
+                [0.5, 1.5]), min_size=ln, max_size=ln))      # -> a tuple
+        else:
+            kw[a] = draw(st.integers(0, 9) | st.sampled_from(["p", "q"]))
+    return {"kw": kw}
+
+
 # ----------------------------------------- several runs on one Runner object
 
 def run_history(case):
@@ -429,4 +530,8 @@ PHASES = [
           examples={"quick": 600, "thorough": 20000}),
     Phase("runner-history", run_history, strategy=history_strategy,
           examples={"quick": 400, "thorough": 10000}),
+    Phase("large-sparse", run_large, strategy=large_strategy,
+          examples={"quick": 16, "thorough": 200}, shrink=False),
+    Phase("bare-dict", run_bare, strategy=bare_strategy,
+          examples={"quick": 300, "thorough": 5000}),
 ]
